@@ -176,6 +176,7 @@ func (ip *Interp) opaqueInvoke(recv Iface, method string, args []Value, cc *ssa.
 		case "Err":
 			ip.schedPoint("ctx.Err", o.done)
 			if o.cancelled {
+				ip.syncAcquire(o.done)
 				return ip.ctxCanceledErr()
 			}
 			return Iface{}
@@ -377,6 +378,8 @@ func init() {
 	}
 	V["EnvTicks"] = func(ip *Interp, fn *ssa.Function, args []Value) Value {
 		ip.conc.envTicks = int(termArg(args[0]).bv)
+		// granting timer firings changes what every goroutine waiting on a timer can do: depends on everything
+		ip.schedPoint("EnvTicks")
 		return nil
 	}
 	V["MapOrderAll"] = func(ip *Interp, fn *ssa.Function, args []Value) Value {
@@ -390,6 +393,10 @@ func init() {
 		ip.res.Notes = append(ip.res.Notes, strArg(ip, args[0]))
 		return nil
 	}
+	V["Tag"] = func(ip *Interp, fn *ssa.Function, args []Value) Value {
+		ip.tag = strArg(ip, args[0])
+		return nil
+	}
 	V["Settle"] = func(ip *Interp, fn *ssa.Function, args []Value) Value { return nil }
 	V["ResetReplay"] = func(ip *Interp, fn *ssa.Function, args []Value) Value { return nil }
 	V["Daemon"] = func(ip *Interp, fn *ssa.Function, args []Value) Value {
@@ -400,6 +407,7 @@ func init() {
 		g := ip.cur
 		g.pending = &pendingOp{all: true}
 		ip.block(func() bool { return len(ip.runnable(g)) == 0 }, "quiesce")
+		ip.joinAll()
 		return nil
 	}
 	V["NumBlocked"] = func(ip *Interp, fn *ssa.Function, args []Value) Value {
@@ -478,6 +486,7 @@ func init() {
 		if ip.stateInt(c) != -1 {
 			ip.goPanic("sync: unlock of unlocked mutex")
 		}
+		ip.syncOp(c) // release before the lock becomes available
 		ip.setStateInt(c, 0)
 		ip.schedPoint("Unlock", c)
 		return nil
@@ -507,6 +516,7 @@ func init() {
 		if ip.stateInt(c) <= 0 {
 			ip.goPanic("sync: RUnlock of unlocked RWMutex")
 		}
+		ip.syncOp(c)
 		ip.setStateInt(c, ip.stateInt(c)-1)
 		ip.schedPoint("RUnlock", c)
 		return nil
@@ -717,6 +727,14 @@ func init() {
 		c := ip.newCtx(parent)
 		cancel := &Closure{name: "cancel", native: func(ip *Interp, a []Value) Value {
 			ip.schedPoint("cancel")
+			var rel func(x *ctxObj)
+			rel = func(x *ctxObj) {
+				ip.syncRelease(x.done)
+				for _, ch := range x.children {
+					rel(ch)
+				}
+			}
+			rel(c)
 			ip.cancelCtx(c)
 			return nil
 		}}
@@ -1111,7 +1129,7 @@ func init() {
 		return nil
 	}
 	I["runtime.Gosched"] = func(ip *Interp, fn *ssa.Function, args []Value) Value {
-		ip.schedPoint("Gosched", fn)
+		ip.schedPoint("Gosched") // depends on everything: used by models to mark I/O, where any interleaving is possible
 		return nil
 	}
 	I["runtime.NumGoroutine"] = func(ip *Interp, fn *ssa.Function, args []Value) Value {
